@@ -69,6 +69,14 @@ pub fn decode_data(bytes: &[u8]) -> Option<(air_interpreter_data::Versions, Inte
 }
 
 pub fn data_json(bytes: &[u8]) -> Value {
+    // serialising decoded data can panic when rkyv validation let a non-UTF-8 string through
+    match std::panic::catch_unwind(|| data_json_inner(bytes)) {
+        Ok(v) => v,
+        Err(_) => serde_json::json!({"panic_while_printing_decoded_data": true}),
+    }
+}
+
+fn data_json_inner(bytes: &[u8]) -> Value {
     match decode_data(bytes) {
         Some((v, d)) => serde_json::json!({"versions": {"data": v.data_version.to_string(), "interpreter": v.interpreter_version.to_string()},
                                            "data": serde_json::to_value(&d).unwrap()}),
